@@ -242,7 +242,8 @@ class Fates:
 
 class SimNet:
     def __init__(self, opts: dict, fates: Fates, script: list, monitors: list, seed=0, lateness=0.0, tap=True,
-                 horizon=200.0, step_cap=40000, client_conn_kwargs=None, server_conn_kwargs=None, use_keylog=True):
+                 horizon=200.0, step_cap=40000, client_conn_kwargs=None, server_conn_kwargs=None, use_keylog=True,
+                 config_hook=None, key_hook=False):
         from aioquic.quic.connection import QuicConnection
 
         self.opts = opts
@@ -263,10 +264,15 @@ class SimNet:
         if use_keylog:
             ccfg.secrets_log_file = self.keylog
             scfg.secrets_log_file = self.keylog
+        if config_hook is not None:
+            config_hook(ccfg, scfg)
+        self.key_hook = key_hook
         self.ccfg, self.scfg = ccfg, scfg
         self.tap = Tap({"client": ccfg.connection_id_length, "server": scfg.connection_id_length}) if tap else None
         self.client = Endpoint("client", QuicConnection(configuration=ccfg, **(client_conn_kwargs or {})), CLIENT_ADDR)
         apply_conn_opts(self.client.conn, opts, "client")
+        if key_hook:
+            self._hook_keys(self.client.conn, "client")
         self.server = None
         self.server_conn_kwargs = server_conn_kwargs or {}
         self.script = sorted(script, key=lambda o: o["t"])
@@ -308,6 +314,24 @@ class SimNet:
         if len(self.history) < 5000:
             self.history.append((round(self.now, 6), ep.name, name, _digest_args(args), _digest_ret(ret)))
         return ret
+
+    def _hook_keys(self, conn, side):
+        """Give the tap the traffic secrets without using the library's secrets log (needed when the
+        property under test is about that log): wrap the traffic-key callback on the instance."""
+        orig = conn._update_traffic_key
+        tap = self.tap
+
+        def wrapper(direction, epoch, cipher_suite, secret):
+            if tap is not None:
+                sending = direction.name == "ENCRYPT"
+                owner = side if sending else ("server" if side == "client" else "client")
+                ename = epoch.name
+                label = {"HANDSHAKE": "%s_HANDSHAKE_TRAFFIC_SECRET", "ONE_RTT": "%s_TRAFFIC_SECRET_0", "ZERO_RTT": "%s_EARLY_TRAFFIC_SECRET"}.get(ename)
+                if label:
+                    tap.add_secret(label % owner.upper(), bytes(secret))
+            return orig(direction, epoch, cipher_suite, secret)
+
+        conn._update_traffic_key = wrapper
 
     def views_possibly_intact(self, rec, altered):
         """PacketViews of a delivered datagram that may have reached the receiver unmodified: all of
@@ -407,6 +431,8 @@ class SimNet:
         dcid = first_datagram[6 : 6 + dlen]
         conn = QuicConnection(configuration=self.scfg, original_destination_connection_id=dcid, **self.server_conn_kwargs)
         apply_conn_opts(conn, self.opts, "server")
+        if self.key_hook:
+            self._hook_keys(conn, "server")
         self.server = Endpoint("server", conn, SERVER_ADDR)
         return True
 
@@ -554,6 +580,15 @@ class SimNet:
                 self.call(ep, "send_datagram_frame", prf_bytes("dg/%s/%s/%d" % (self.seed, side, op["uid"]), op["n"]))
             else:
                 outcome = "skipped-no-handshake"
+        elif kind == "inject":
+            # hostile bytes handed to the endpoint as a datagram from its peer's address
+            data = bytes.fromhex(op["hex"]) if "hex" in op else self._mutated(op)
+            if data is None:
+                outcome = "skipped"
+            else:
+                src = SERVER_ADDR if side == "client" else CLIENT_ADDR
+                ep.started = True
+                self.call(ep, "receive_datagram", data, src, now=self.now)
         elif kind == "close":
             self.call(ep, "close", error_code=op.get("code", 0), frame_type=op.get("frame_type"), reason_phrase=op.get("reason", ""))
         else:
@@ -561,6 +596,23 @@ class SimNet:
         for m in self.monitors:
             m.on_app(ep, op, self.now, outcome)
         self._after(ep, "app:" + kind)
+
+
+def _sim_mutated(self, op):
+    """A mutated copy of an earlier genuine datagram: op = {of: [sender, index], flips: [[pos, mask]...], trunc: n}"""
+    sender, index = op["of"]
+    recs = self.datagrams[sender]
+    if index >= len(recs):
+        return None
+    b = bytearray(recs[index].data)
+    for pos, mask in op.get("flips", []):
+        b[pos % len(b)] ^= mask
+    if op.get("trunc"):
+        b = b[: max(1, len(b) - op["trunc"])]
+    return bytes(b)
+
+
+SimNet._mutated = _sim_mutated
 
 
 def _digest_args(args):
